@@ -220,6 +220,26 @@ func runC01Wire(c *Ctx) {
 			c.R.Inconcl("connect failed: " + err.Error())
 			return
 		}
+		// a third of the sessions talk to a server that announces its parameters (RPL_ISUPPORT) first; another third
+		// does so on a connection of the same client that has ended before this one began
+		switch sn := base / sessLen; sn % 3 {
+		case 1:
+			if !s.Isupport(mc, sn/3) {
+				c.R.Inconcl("005 not processed")
+				return
+			}
+			c.R.Count("wire_sessions_after_isupport", 1)
+		case 2:
+			if !s.Isupport(mc, sn/3) || !CloseWatched(s.Conn) {
+				c.R.Inconcl("005 / close before the session proper failed")
+				return
+			}
+			if mc, err = s.Connect(); err != nil {
+				c.R.Inconcl("second connect failed: " + err.Error())
+				return
+			}
+			c.R.Count("wire_sessions_after_isupport_on_an_earlier_connection", 1)
+		}
 		var got []*client.Line
 		registered := map[string]bool{}
 		handler := func(_ *client.Conn, l *client.Line) {
